@@ -8,7 +8,7 @@ from .. import AnalysisError
 from ..astutil import is_name, norm_cond
 from ..cfg import CFG
 from ..engine import Analysis
-from ..kinds import anything, arg_for, call_nodes, calls_to, param_positions, q, strict, strict_but, token_assert
+from ..kinds import anything, arg_for, call_nodes, calls_to, normal_only, param_positions, q, strict, strict_but, token_assert
 from ..loader import FunctionInfo, dotted, stmt_text
 
 ASSUMPTIONS = [
@@ -113,7 +113,7 @@ def check(an: Analysis) -> None:
             if not own:
                 ob.fail(f, None, f"{short}.{name} never sets {short}._context")
                 continue
-            lo, hi = g.count_range(lambda n: n in own, g.entry, lambda n: n.kind == "exit-return", skip_edge=lambda a, b, lab: lab == "exc")
+            lo, hi = g.count_range(lambda n: n in own, g.entry, lambda n: n.kind == "exit-return", skip_edge=normal_only)
             if (lo, hi) != (1, 1):
                 ob.fail(f, own[0].ast, f"{short}._context.set executed {lo}..{hi} times on normal paths of {name} (must be exactly once)")
         for name in exits:
